@@ -182,7 +182,8 @@ pub fn run(a: &Args) {
         let exact = ch + 1 < chunks || chunks == 1;
         // the exponent of the exact coordinates covers both extremes (areas of 2^-80 and 2^80)
         let kfix = match ch { 0 => Some(-40), 1 => Some(40), 2 => Some(-27), 3 => Some(0), _ => None };
-        let c = Conc::new_with(&mut r, exact, kfix, false);
+        // the chunk before the last one: neighbouring doubles (ends of a ring one or two ulps apart are NOT equal)
+        let c = if chunks >= 6 && ch + 2 == chunks { Conc::ulps(&mut r) } else { Conc::new_with(&mut r, exact && !(chunks >= 6 && ch + 2 == chunks), kfix, false) };
         let mut meta = c.meta();
         meta["prop"] = json!(prop);
         meta["seed"] = json!(seed);
@@ -192,7 +193,7 @@ pub fn run(a: &Args) {
         concs.push(c);
     }
     let mut k = 0usize;
-    let nexact = if chunks > 1 { chunks - 1 } else { 1 };
+    let nexact = if chunks >= 6 { chunks - 2 } else if chunks > 1 { chunks - 1 } else { 1 };
     // 1. every ring of 1..maxv vertices on the grid x both roles x three point types
     for n in 1..=maxv {
         for ring in grid_rings(n) {
